@@ -88,6 +88,8 @@ def gen_plan_c08b(seed, tier, index):
     if mode == 'cnn':
         plan['cfg'].pop('decoder')
         plan['cfg']['cnn_adaptive'] = r.random() < 0.6
+        for knob in ('cnn_merge', 'cnn_heights', 'cnn_baselines'):
+            plan['cfg'][knob] = r.random() < 0.3
         plan['outputs'] = ['xml'] + [k for k in ('alto', 'logits') if r.random() < 0.4]
     if mode == 'layout':
         plan['regions_from_xml'] = True
